@@ -50,7 +50,7 @@ def check(ctx, tier):
     W.report(ctx, tk, "C12.g", [f, ctx.func("hashtable.Counter.__init__"), ctx.func("raggedshape.RaggedView._get_flat_indices_fast"),
                                 ctx.func("raggedshape.RaggedShape._broadcast_values_fast")])
     from .. import hazards as _hz, scopes as _sc
-    _hz.generic(ctx, tk, "C12.z", _sc.scope(tk, "C12", depth=2))
+    _hz.generic(ctx, tk, "C12.z", _sc.scope(tk, "C12", depth=1))
     return {}
 
 
